@@ -65,10 +65,6 @@ CHECKS.update({
               "13 unsupported constructs x random positions; 5 negative controls that must be accepted and preserved.", "§6 C12"),
     "C13": tv("three-way differential on non-generator code: source package (native, stub API) vs unoptimised stage vs generated package, under go 1.21 and go 1.22 module semantics",
               "Bystander functions with eta-shaped closures over every callee form, package-level declarations, closures inside generator bodies.", "§6 C13"),
-    "C15": tv("byte comparison of real Compile outputs across repeated runs, placements among unrelated files/packages, renamed siblings, stale outputs on disk; hook output == Compile output",
-              "Run-to-run determinism is sampled (3 runs); placement independence and gensym uniqueness are checked on generated packages with sequential and nested ranges.", "§6 C15"),
-    "C16": tv("directory snapshots around the real cmd/cogen on generated package layouts, then go build / go test / go vet -tags co, then a second run",
-              "Layouts with names containing an earlier _co, test files, plain siblings, API-less co files, blank imports, sub-packages, stale <dir>_tmp.", "§6 C16"),
 })
 CHECKS["C18"]["technique"] += "; compiled generators with panicking atoms vs reference rendering; C18_compiled_panic_locality_partial: end to end (rewriter model + machine model), a panic of the source coroutine after k deliveries in user world u is the panic of the consumer loop over the machine's generator object after k deliveries in world u (fragment and side conditions of C01)"
 
@@ -115,6 +111,24 @@ CHECKS["C06"] = dict(
     text="C06_range_is_consume, C06_compiled_range_partial (Props_C06.v). The interop sentence follows from the iterator automaton of C09; the type replacement clause is not modelled (go/types) and is checked by building generated packages; "
          "for v (:)= range g inside generator bodies over library generators, reference is the explicit MoveNext/Current loop.",
     note=C_NOTE, design="§6 C06, §11")
+CHECKS["C15"] = dict(
+    category="proof",
+    technique="Coq proof (partial, one clause): the helper identifiers produced for one file by the gensym model (Gensym.v: counter + decimal rendering as strconv.Itoa) are pairwise different and differ from the bare prefix; "
+              "the numbered identifiers of every generated file are compared with the model's names (evaluated inside Coq) on every run; "
+              "byte comparison of real Compile outputs across repeated runs, placements among unrelated files/packages, renamed siblings, stale outputs on disk; hook output == Compile output",
+    text="C15_helper_identifiers_unique_partial, C15_helper_identifiers_are_numbered, C15_numbered_differs_from_bare_prefix (Props_C15.v). Run-to-run determinism is sampled (3 runs), placement independence is checked on generated "
+         "packages with sequential and nested ranges; for the modelled part of the compiler (rewriter and optimiser models are functions of the body) independence of placement is what the structural correspondence shows. "
+         "Map iteration order, the loader's file order and the file system are outside any model.",
+    note="Trusted: Coq kernel; Gensym.v as a model of rewriter/range.go gensym (compared with the identifiers of the generated files on every run); the program generator, the VerifCompile hook. No axioms.", design="§6 C15, §11")
+CHECKS["C16"] = dict(
+    category="proof",
+    technique="Coq proof (partial, file-name mapping): NameMap.v models GoGen's suffix test, suffix mapping and the two strings.ReplaceAll calls that move a path into <dir>_tmp and back (ReplaceAll modelled for every string); "
+              "theorems: x_co.go -> x.go and x_co_test.go -> x_test.go in the same directory for every directory and every name, provided the directory string occurs in the path only as its prefix; "
+              "the model's derived names are compared (inside Coq) with the files the real cmd/cogen created on every generated layout; "
+              "directory snapshots around the real cmd/cogen on generated package layouts, then go build / go test / go vet -tags co, then a second run",
+    text="C16_suffix_mapping, C16_src_file_mapping, C16_test_file_mapping; C16_old_mapping_refuted is the witness of the repaired defect 9a377ec (Props_C16.v). File contents, header, build/test with and without the tag, "
+         "idempotence of the second run and stale <dir>_tmp are decided by the check only: layouts with names containing an earlier _co, a directory name containing _co.go, test files, plain siblings, API-less co files, blank imports, sub-packages, stale <dir>_tmp.",
+    note="Trusted: Coq kernel; NameMap.v as a model of rewriter/compile.go GoGen's name mapping (compared with the created files on every run); the Go toolchain decides whether the package builds and its tests pass. No axioms.", design="§6 C16, §11")
 CHECKS["C11"] = dict(
     category="proof",
     technique="Coq proof (partial): on the supported fragment no assertion of the rewriter model can fail, for any fuel (Accept.v); in the final output every function literal at any depth "
